@@ -622,6 +622,8 @@ def run(ctx: common.Ctx):
                                    'proteins': [(tx, s, nfmap.get(tx)) for tx, s in prots]}))
     ctx.diff_stream('pool', cases, True, lambda o: o, lambda o: o != '',
                     'canonical pool is not the digest of the proteome')
+    from . import rule_ref
+    rule_ref.check_rule_tables(ctx)
     firsts_stream(ctx, rules, names)
     cli_pool_stream(ctx, rules)
     ctx.assumptions += [
